@@ -759,15 +759,12 @@ class C17(Prop):
             # histories with prepared / taken-over states (state objects are shared, so every object of such a history): the
             # library may have reordered the children of a node, so the model is evaluated on the ordered tree that was handed in
             # (path) and on the one the object holds when the cache is built (keys)
-            items = []
-            for o, rec in zip(case["objects"], ob["objects"]):
-                if "rtree_in" not in rec:
-                    continue
-                keys = [f"cache_keys {util.coq_rtree(tuple_tree(ph['rtree_state']))} {cn(ph['path'][0])}"
-                        for ph in rec["phases"] if "err" not in ph and ph["path"]]
-                items.append(f"(update_path {util.coq_rtree(tuple_tree(rec['rtree_in']))}, "
-                             f"({coq_list(keys)} : list (option (list (nat * nat)))))")
-            return f"({per_tree}, ({coq_list(items)} : list (option (list nat) * list (option (list (nat * nat))))))"
+            lits, _ = self._spec_plan(case, ob)
+            items = [f"(let t := {lit} in (update_path t, " +
+                     (coq_list([f"cache_keys t {cn(u)}" for u in us]) if us else "(@nil (option (list (nat * nat))))") + "))"
+                     for lit, us in lits]
+            spec = coq_list(items) if items else "(@nil (option (list nat) * list (option (list (nat * nat)))))"
+            return f"({per_tree}, {spec})"
         if case["kind"] == "real":
             tl = util.coq_rtree(tuple_tree(ob["rtree"]))
             return f"(let t := {tl} in (update_path t, tdvp_cache_keys t))"
@@ -809,6 +806,38 @@ class C17(Prop):
         return f"(let t := {tl} in (" + ", ".join(parts) + "))"
 
     @staticmethod
+    def _spec_plan(case, ob):
+        """for a history with prepared / taken-over states: the distinct ordered trees the library held (as Coq literals, each
+        with the left-out nodes whose cache keys are needed — one single-level `let` per tree: chains of `let`s over literals
+        with large unary identifiers are very slow to elaborate) and, per object that was constructed, (index of the tree
+        handed in, [(index of the tree held when the cache was built, position of the left-out node) per observed phase])."""
+        lits, index, plan = [], {}, []
+
+        def T(rt):
+            lit = util.coq_rtree(tuple_tree(rt))
+            if lit not in index:
+                index[lit] = len(lits)
+                lits.append((lit, []))
+            return index[lit]
+        for rec in ob["objects"]:
+            if "rtree_in" not in rec:
+                plan.append(None)
+                continue
+            tin = T(rec["rtree_in"])
+            phs = []
+            for ph in rec["phases"]:
+                if "err" in ph or not ph["path"]:
+                    phs.append(None)
+                    continue
+                k = T(ph["rtree_state"])
+                us = lits[k][1]
+                if ph["path"][0] not in us:
+                    us.append(ph["path"][0])
+                phs.append((k, us.index(ph["path"][0])))
+            plan.append((tin, phs))
+        return lits, plan
+
+    @staticmethod
     def _special(o):
         return bool(o.get("prepare")) or "from" in o
 
@@ -828,16 +857,28 @@ class C17(Prop):
             idx.append(i)
         plain = [i for i in small if not self._special_case(cases[i])]
         spec = [i for i in small if i not in set(plain)]
-        groups = [plain[k:k + 10] for k in range(0, len(plain), 10)] + [spec[k:k + 10] for k in range(0, len(spec), 10)]
-        for g in groups:
-            exprs.append("[" + "; ".join(self._model_expr(cases[i], obs[i]) for i in g) + "]")
-        vals = coq_eval(ctx, IMPORTS, exprs, prelude=PRELUDE, shard=12, scope="nat_scope")
+        # (histories with prepared states carry one tree literal per distinct children order: smaller groups)
+        groups = [plain[k:k + 10] for k in range(0, len(plain), 10)] + [spec[k:k + 4] for k in range(0, len(spec), 4)]
+        gexprs = ["[" + "; ".join(self._model_expr(cases[i], obs[i]) for i in g) + "]" for g in groups]
+        # the files are evaluated in parallel, twelve expressions each: one (heavy) group expression per file
+        SH = 12
+        layout, rest, gi = [], list(range(len(exprs))), 0
+        while rest or gi < len(groups):
+            take = SH
+            if gi < len(groups):
+                layout.append(("g", gi))
+                gi += 1
+                take -= 1
+            layout += [("e", k) for k in rest[:take]]
+            rest = rest[take:]
+        vals = coq_eval(ctx, IMPORTS, [gexprs[k] if w == "g" else exprs[k] for w, k in layout], prelude=PRELUDE, shard=SH, scope="nat_scope")
         out = [None] * len(cases)
-        for i, v in zip(idx, vals):
-            out[i] = v
-        for g, v in zip(groups, vals[len(idx):]):
-            for k, i in enumerate(g):
-                out[i] = v if isinstance(v, BaseException) else v[k]
+        for (w, k), v in zip(layout, vals):
+            if w == "e":
+                out[idx[k]] = v
+            else:
+                for pos, i in enumerate(groups[k]):
+                    out[i] = v if isinstance(v, BaseException) else v[pos]
         return out
 
     # ---------------------------------------------------------------------------------------
@@ -857,32 +898,32 @@ class C17(Prop):
                     return f"the state of tree {j} does not hold the tree that was built"
             any_special = self._special_case(case)
             mo_trees, mo_spec = (mo if any_special else (mo, []))
-            mo_spec = list(mo_spec)
+            plan = self._spec_plan(case, ob)[1] if any_special else [None] * len(ob["objects"])
+
+            def unordered(t):
+                return (t[0], sorted(unordered(c) for c in t[1]))
             for j, (o, rec) in enumerate(zip(case["objects"], ob["objects"])):
                 up_m, keys_m = mo_trees[o["tree"]]
                 pm = None if up_m is None else list(up_m[1])
                 km = None if keys_m is None else [list(p) for p in keys_m[1]]
-                kms = None
-                if any_special and "rtree_in" in rec:
+                pl = plan[j]
+                if pl is not None:
                     # same rooted tree as the case (as an UNORDERED tree); model on the ordered trees the library holds
-                    def unordered(t):
-                        return (t[0], sorted(unordered(c) for c in t[1]))
                     want_t = unordered(case_rtree(case["trees"][o["tree"]]))
                     if unordered(tuple_tree(rec["rtree_in"])) != want_t:
                         return f"TDVP object {j}: the state handed in does not hold the tree of the case: {rec['rtree_in']}"
-                    up_s, kms = mo_spec.pop(0)
+                    up_s = mo_spec[pl[0]][0]
                     pm = None if up_s is None else list(up_s[1])
-                    kms = list(kms)
-                for ph in rec["phases"]:
+                for i, ph in enumerate(rec["phases"]):
                     where = f"TDVP object {j} ({o['algo']} on tree {o['tree']}) after {ph['after'] or 'construction'}"
                     if "err" in ph:
                         return f"{where}: observation raised {ph['err']}"
                     if ph["path"] != pm:
                         return f"{where}: update_path {ph['path']}, model {pm}"
-                    if kms is not None and ph["path"]:
+                    if pl is not None and pl[1][i] is not None:
                         if unordered(tuple_tree(ph["rtree_state"])) != want_t:
                             return f"{where}: the object's state does not hold the tree of the case: {ph['rtree_state']}"
-                        k1 = kms.pop(0)
+                        k1 = list(mo_spec[pl[1][i][0]][1])[pl[1][i][1]]
                         km = None if k1 is None else [list(p) for p in k1[1]]
                     if ph["keys"] != km:
                         return f"{where}: cache keys {ph['keys']}, model {km}"
